@@ -385,6 +385,7 @@ class Restore:
         self.reads = {}        # key -> [(fn, node, guarded)]
         self.sinks = []        # (kind 'attr'|'ctor'|'setattr', name, keys:set, via_build:bool, fn, node)
         self.funcs = []
+        self.wrong_guards = []
 
 
 def _walk_pruned(ex):
@@ -465,6 +466,20 @@ def restore_table(repo, ci):
             if isinstance(n, ast.Compare) and len(n.ops) == 1 and isinstance(n.ops[0], (ast.In, ast.NotIn)) \
                     and dotted(n.comparators[0]) == dparam and isinstance(n.left, ast.Constant):
                 in_tested.add(n.left.value)
+        # `if "key" in <another mapping>: ... attribute_dict["key"]`: the presence test looks in a different dictionary than the read
+        for n in ast.walk(f.node):
+            if isinstance(n, ast.If):
+                for t in ast.walk(n.test):
+                    if isinstance(t, ast.Compare) and len(t.ops) == 1 and isinstance(t.ops[0], (ast.In, ast.NotIn)) and isinstance(t.left, ast.Constant) \
+                            and isinstance(t.left.value, str) and isinstance(t.comparators[0], ast.Name) and t.comparators[0].id != dparam \
+                            and t.comparators[0].id in f.params:
+                        k = t.left.value
+                        reads_k = [x for b in n.body + n.orelse for x in ast.walk(b) if isinstance(x, ast.Subscript) and isinstance(x.value, ast.Name)
+                                   and x.value.id == dparam and isinstance(x.slice, ast.Constant) and x.slice.value == k]
+                        reads_other = [x for b in n.body + n.orelse for x in ast.walk(b) if isinstance(x, ast.Subscript) and isinstance(x.value, ast.Name)
+                                       and x.value.id == t.comparators[0].id and isinstance(x.slice, ast.Constant) and x.slice.value == k]
+                        if reads_k and not reads_other:
+                            R.wrong_guards.append((f, t, k, t.comparators[0].id))
         # reads
         for n in fl.cfg.nodes:
             for e in fl.cfg.node_exprs(n):
